@@ -3,6 +3,21 @@
 //   * taken by waits that returned 0  +  count()  ==  initial + signalled; a failed wait took nothing
 //   * at quiescence no waiter stays blocked while the count covers the demand of the head (in-order) / of any waiter (out-of-order)
 // Out-of-order histories run in a forked child under a watchdog (a hang is a result, not a crash of the campaign).
+#include <atomic>
+#include <mutex>
+#include <thread>
+#include <vector>
+#include <string>
+#include <memory>
+#include <functional>
+#include <unordered_map>
+#include <map>
+#include <set>
+#include <random>
+#include <algorithm>
+#include <sstream>
+#include <fstream>
+#define protected public      /* the oracle reads the semaphore's wait queue head (waitq::q) */
 #include "../../../repo/thread/thread.cpp"      // the real semaphore / scheduler, compiled from /repo's working tree
 #include <cstdio>
 #include <cstdlib>
@@ -34,27 +49,32 @@ static bool history(uint64_t seed, bool ooo, std::string* desc) {
     for (int i = 0; i < nw; i++) { ws[i].id = i; ws[i].demand = 1 + rnd() % 4; snprintf(b, sizeof b, "%s%lu", i ? "," : "", (unsigned long)ws[i].demand); *desc += b; }
     *desc += "] ops=";
     for (auto& w : ws) { w.th = photon::thread_create(&waiter, &w); photon::thread_yield(); }   // queue order == index order
-    uint64_t signalled = 0;
+    uint64_t signalled = 0, main_taken = 0;
     auto quiescent_ok = [&]() -> bool {
         photon::thread_usleep(1000);
         uint64_t c = sem.count();
-        for (auto& w : ws) if (w.started && !w.done) {      // blocked waiters in queue order
-            if (w.demand <= c) { char m[160]; snprintf(m, sizeof m, "waiter %d (demand %lu) stays blocked while the count is %lu", w.id, (unsigned long)w.demand, (unsigned long)c); why = m; return false; }
-            if (!ooo) break;                                 // in-order: only the head counts
+        auto head = (photon::thread*)sem.q.th;              // the real queue head (a waiter that re-queued went to the tail)
+        for (auto& w : ws) if (w.started && !w.done) {
+            if (!ooo && w.th != head) continue;              // in-order: only the head counts
+            if (w.demand <= c) { char m[160]; snprintf(m, sizeof m, "waiter %d (demand %lu%s) stays blocked while the count is %lu", w.id, (unsigned long)w.demand, ooo ? "" : ", head of the queue", (unsigned long)c); why = m; return false; }
         }
         return true;
     };
     bool ok = quiescent_ok();
     for (int k = 0; ok && k < nops; k++) {
-        int op = rnd() % 3;
-        if (op == 0 || op == 1) { uint64_t n = 1 + rnd() % 5; signalled += n; snprintf(b, sizeof b, "signal(%lu) ", (unsigned long)n); *desc += b; sem.signal(n); }
+        int op = rnd() % 4;
+        if (op == 3) {      // a fresh wait by the orchestrating thread that is covered at once (it may overtake a waiter that was resumed but has not run yet)
+            uint64_t n = 1 + rnd() % 2; snprintf(b, sizeof b, "take(%lu) ", (unsigned long)n); *desc += b;
+            if (sem.count() >= n) { if (sem.wait_interruptible(n, 1000) != 0) { why = "a covered wait failed"; return false; } main_taken += n; }
+        } else if (op == 0 || op == 1) { uint64_t n = 1 + rnd() % 5; signalled += n; snprintf(b, sizeof b, "signal(%lu) ", (unsigned long)n); *desc += b; sem.signal(n); }
         else { int i = rnd() % nw; snprintf(b, sizeof b, "interrupt(%d) ", i); *desc += b; if (!ws[i].done) photon::thread_interrupt(ws[i].th, 1000 + i); }
-        ok = quiescent_ok();
+        if (rnd() % 2) { *desc += "| "; ok = quiescent_ok(); }      // otherwise the next operation runs before the woken waiters do
     }
+    if (ok) ok = quiescent_ok();
     for (auto& w : ws) if (!w.done) photon::thread_interrupt(w.th, ECANCELED);
     for (int spin = 0; spin < 1000; spin++) { bool all = true; for (auto& w : ws) all = all && w.done; if (all) break; photon::thread_usleep(1000); }
     if (!ok) return false;
-    uint64_t taken = 0;
+    uint64_t taken = main_taken;
     for (auto& w : ws) {
         if (!w.done) { why = "a waiter never returned"; return false; }
         if (w.ret == 0) taken += w.demand;
@@ -72,6 +92,21 @@ static bool history_ooo_fixed() {
     photon::thread_usleep(5000);
     bool ok = ws[1].done && ws[2].done && ws[1].ret == 0 && ws[2].ret == 0 && !ws[0].done;
     if (!ok) why = "out-of-order mode: B(1) and C(1) are not both resumed by signal(2) behind A(5)";
+    for (auto& w : ws) if (!w.done) photon::thread_interrupt(w.th, ECANCELED);
+    photon::thread_usleep(5000);
+    return ok;
+}
+// deterministic history: W1(2) W2(1) queued, signal(2) resumes W1, the orchestrating thread takes 1 before W1 runs; W1 must sleep again
+// (count 1 < 2) at the tail - the count now covers the new head W2, which must not stay blocked
+static bool history_overtake_fixed() {
+    photon::semaphore sem(0); SEM = &sem;
+    std::vector<W> ws(2); uint64_t d[2] = {2, 1};
+    for (int i = 0; i < 2; i++) { ws[i].id = i; ws[i].demand = d[i]; ws[i].th = photon::thread_create(&waiter, &ws[i]); photon::thread_yield(); }
+    sem.signal(2);
+    bool took = sem.wait_interruptible(1, 1000) == 0;
+    photon::thread_usleep(5000);
+    bool ok = took && ws[1].done && ws[1].ret == 0 && !ws[0].done && sem.count() == 0;
+    if (!ok) { char m[200]; snprintf(m, sizeof m, "W1(2) W2(1), signal(2), take(1) before W1 runs: W2 %s, count %lu (W2 must be resumed: it is the head and the count covers it)", ws[1].done ? "done" : "still blocked", (unsigned long)sem.count()); why = m; }
     for (auto& w : ws) if (!w.done) photon::thread_interrupt(w.th, ECANCELED);
     photon::thread_usleep(5000);
     return ok;
@@ -100,11 +135,14 @@ int main(int argc, char** argv) {
     if (argc >= 3 && !strcmp(argv[1], "--replay")) {
         std::ifstream f(argv[2]); std::stringstream ss; ss << f.rdbuf(); std::string j = ss.str(), msg;
         int r = in_child([] { return history_ooo_fixed(); }, 5, &msg);
+        if (j.find("overtake") != std::string::npos || j.find("wait_interruptible") != std::string::npos) { int r2 = in_child([] { return history_overtake_fixed(); }, 10, &msg); printf("%s %s\n", r2 ? "REPRODUCED" : "NOT-REPRODUCED", msg.c_str()); return 0; }
         if (j.find("out_of_order") != std::string::npos || j.find("ooo") != std::string::npos) { printf("%s %s\n", r ? "REPRODUCED" : "NOT-REPRODUCED", msg.c_str()); return 0; }
         printf("NOT-REPRODUCED no concrete history for this obligation\n"); return 0;
     }
     uint64_t N = argc > 1 ? strtoull(argv[1], 0, 10) : 300, cases = 0;
     uint64_t seed0 = getenv("VERIF_SEED") ? strtoull(getenv("VERIF_SEED"), 0, 10) : 1;
+    { std::string msg; int r = in_child([] { return history_overtake_fixed(); }, 10, &msg); ++cases;
+      if (r) { for (auto& ch : msg) if (ch == '"') ch = '\''; printf("CEX overtake {\"kind\": \"overtake\", \"why\": \"%s\"}\n", msg.c_str()); return 3; } }
     // in-order histories, in batches per child
     for (uint64_t base = 0; base < N; base += 50) {
         std::string msg; static std::string d; static uint64_t bad;
